@@ -233,6 +233,16 @@ class Fn:
     def postdominates(self, a, b):
         return b in self.pdom and a in self.pdom[b]
 
+    def control_dependents(self, sw):
+        """blocks whose execution is decided by the branch taken at block `sw` (Ferrante et al.: b post-dominates a
+        successor of sw, and does not strictly post-dominate sw itself)"""
+        out = set()
+        for t in self.succ.get(sw, []):
+            for b in self.blocks:
+                if (b == t or self.postdominates(b, t)) and not (b != sw and self.postdominates(b, sw)):
+                    out.add(b)
+        return out
+
     def reachable_from(self, bb, avoid=()):
         key = (bb, tuple(sorted(avoid)))
         if key in self._reach:
@@ -540,6 +550,36 @@ def forward_taint(fn, seeds, stop=None):
                         if a not in tainted and fn.ty.get(a, '').startswith('&mut'):
                             tainted.add(a)
     return tainted
+
+
+def forward_taint_implicit(fn, seeds, stop=None):
+    """forward_taint plus implicit flows: whatever is written in a block that runs or not depending on a branch over tainted
+    data is tainted too. Returns (tainted locals, {block: deciding switch block})"""
+    tainted = set(seeds)
+    decided = {}
+    while True:
+        tainted = forward_taint(fn, tainted, stop)
+        n0 = (len(tainted), len(decided))
+        for i, b in fn.blocks.items():
+            t = b['term']
+            if t and t['t'] == 'switch' and is_place(t['discr']) and t['discr']['pl']['l'] in tainted:
+                for d in fn.control_dependents(i):
+                    decided.setdefault(d, i)
+        for d in decided:
+            b = fn.blocks[d]
+            for s in b['stmts']:
+                tainted.add(s['dst']['l'])
+                if '*' in s['dst']['p']:
+                    tainted.update(provenance(fn, s['dst']['l']).locals)
+            c = fn.call_at.get(d)
+            if c is not None:
+                tainted.add(c.dst['l'])
+                for a in c.arg_locals():
+                    if fn.ty.get(a, '').startswith('&mut'):
+                        tainted.add(a)
+                        tainted.update(provenance(fn, a).locals)
+        if (len(tainted), len(decided)) == n0:
+            return tainted, decided
 
 
 def provenance(fn, start, pass_through=PASS_THROUGH, follow_all_call_args=False, stop_calls=None, max_nodes=4000, skip_blocks=None):
